@@ -310,6 +310,9 @@ def alt_table(prog, b):
             if clos is None and c2 is not None and "closure" in c2:
                 clos = prog.bodies.get(c2["closure"])
             if clos is None:
+                # `map(parser, ParsedComponent::Variant)`: the tuple-variant constructor itself is the mapping function
+                if c2 is not None and "fn" in c2 and "{constructor" in c2["fn"].get("def", "") and "parser::ParsedComponent::" in c2["fn"]["name"]:
+                    maps[t["dest"]["l"]] = (norm(c2["fn"]["name"]).rsplit("::", 1)[-1], pfn)
                 continue
             vs = {v for v, _, _ in tables.variant_aggs(clos, clos.reachable(), "parser::ParsedComponent")}
             if len(vs) == 1:
